@@ -101,8 +101,16 @@ PROPS = {
                   "virtual time (testing/synctest); after every event the bytes on every connection with their virtual "
                   "timestamps, ListPeer session/admin state and the RIB are compared with an explicit reference FSM written from "
                   "RFC 4271 section 8."),
-        "note": ("Passive side only (the active-open path needs a dial hook, see DESIGN section 4); TCP-level behaviour out of "
-                 "scope; outcomes the RFC leaves open (OPEN in Established) are not asserted."),
+        "note": ("Active side (TestVerifC07_active): the outgoing connect of a non-passive peer ends in the harness through the "
+                 "verif-tagged dial hook; generated sequences over {outbound connect completes / is refused, inbound connect, valid and "
+                 "invalid OPEN and KEEPALIVE on either connection (the two OPENs carry different hold times), OPEN on both at once, "
+                 "close, UPDATE, silence up to just before/after the next hold deadline} are checked against invariants over the whole "
+                 "history written from RFC 4271 6.8/8/10 (the connect timer is jittered by design, so no trace is predicted): message "
+                 "grammar per connection, OPEN-error answers, hold timers of OpenSent / OpenConfirm / Established with the hold time "
+                 "negotiated from the surviving connection's OPEN, Established iff exactly one live connection has the complete "
+                 "handshake, collision resolution by BGP identifier with Cease/7 for the loser, no connect while Established, "
+                 "ConnectRetry after a refused connect. The scripted peer's writes are queued like a TCP send buffer. TCP-level "
+                 "behaviour out of scope; outcomes the RFC leaves open (OPEN in Established on the same connection) are not asserted."),
         "technique": "model-based property testing (rapid) of event histories in virtual time against a reference state machine",
         "rule": ("rapid draws peer kind, local/remote hold times and 1-25 events; non-trivial when the session reached OpenSent "
                  "or beyond and a later event is an error, admin or timer-boundary event; distinct by case hash"),
